@@ -110,6 +110,12 @@ CONF = {
         "tiers": tiers(8, 1500, 16, 20000),
         "require_classes": ["refresh:manual", "refresh:autoinj", "refresh:autort", "fault:filler", "fault:extender", "fault:output", "fault:termsize", "others-sync", "hold"],
     },
+    "C16": {
+        "rule": "cases = scenarios drawn from the generators of C01 (concurrent clients, n>q, sync decorators), C15 (render faults at every site), C14 (cancel/Shutdown as a step) and C03 (auto refresh with early refresh, pop, queued bars), each run 1-4 times in a row in one process, followed by a goroutine-dump poll; non-trivial = auto refresh, a fired fault, a cancel or a notifier was involved; distinct by FNV-64 of the scenario JSON",
+        "assumptions": GO_ASSUME + SCHED_ASSUME + ["a goroutine counts as leaked when it has a library frame or was created by library code, is blocked, and its stack is unchanged over 150 ms after everything else has finished; runnable leftovers make the case inconclusive", "containers are run one after another (the instrumentation hooks are process-global), not overlapping"],
+        "tiers": tiers(8, 800, 16, 12000),
+        "require_classes": ["refresh:autort", "refresh:autoinj", "refresh:manual", "refresh:none", "render-fault", "cancelled", "notifier", "repeated", "concurrent-clients"],
+    },
     "C03": {
         "rule": "cases = sequential programs on auto-refreshing containers (render requests injected by the harness racing with the library's early refresh, or a real 1-3 ms ticker): 1-6 bars with on-complete/on-abort fillers and decorator wrapper stacks, removal on completion, aborts with and without drop, pop mode, queued successors, post-terminal updates, optional cancel/Shutdown; non-trivial = >=2 bars, >=1 completed bar in the last frame and >=1 aborted, removed, popped or replaced bar, and no render-cycle step after the last update (the last frame has to come from early refresh or the final render); distinct by FNV-64 of the scenario JSON",
         "assumptions": GO_ASSUME + SCHED_ASSUME + ["which bars remain is computed from the program by a reference end-state model (first terminal event wins; successor replaces; pop mode pops out; remove-on-complete / abort with drop removes); under cancel/Shutdown only shown rows are judged", "hangs are left to C01 (counted, not judged here)"],
